@@ -137,8 +137,93 @@ def w_accumulator(w, cfg):
                         concretize=lambda m, acc=acc: {"kind": "sum", "s": C.model_value(m, s), "p": 0, "dtype": dt, "acc": acc})
 
 
+class _ZDA:
+    """DataArray contract for ZonalStatistics.mean: attrs (also as attributes), dims, coords, .data, where / notnull as identity
+    for integer rasters (no NaN to replace)."""
+
+    def __init__(self, data, dims, attrs):
+        self.data, self.dims, self.attrs = data, tuple(dims), dict(attrs)
+
+    def pysym_isinstance(self, t):
+        from pysym.interp import LibRef
+        return isinstance(t, LibRef) and t.name == "xarray.DataArray"
+
+    def pysym_getattr(self, it, st, attr):
+        from pysym.lib import native
+        if attr in ("data", "dims", "attrs"):
+            return getattr(self, attr)
+        if attr == "coords":
+            return {d: ("coord", d) for d in self.dims}
+        if attr == "notnull":
+            return native(lambda it_, st_: True)
+        if attr == "where":
+            return native(lambda it_, st_, cond, other=None: self)
+        if attr in self.attrs:
+            return self.attrs[attr]
+        raise Unsupported(f"DataArray.{attr}")
+
+
+def w_accessor(w, cfg):
+    """ZonalStatistics.mean (in-memory path): do_mean receives the pixel cube and the zone raster with every value intact (whatever
+    the zone raster's integer dtype: values and the zone nodata are solver variables over the dtype's whole range), the two nodata
+    attributes, len(zone_ids) and the requested dtype."""
+    from pysym.arr import INT_RANGES
+    from pysym.interp import Instance, LibRef
+    from pysym.lib import native
+    zdt = cfg["zone_dtype"]
+    lo, hi = INT_RANGES[zdt]
+    it = C.new_interp(policy="exact")
+    st = State()
+    zs = [z3.Int(f"z{i}") for i in range(2)]
+    znd, nd = z3.Int("z_nodata"), z3.Int("nodata")
+    # documented contract of the zone raster: ids 0..n-1, everything else is the zone nodata value
+    facts = [z3.And(z >= lo, z <= hi, z3.Or(z3.And(z >= 0, z < 2), z == znd)) for z in zs] + [znd >= lo, znd <= hi, nd >= -32768, nd <= 32767]
+    it.assume(*facts)
+    px = [z3.Int(f"p{i}") for i in range(2)]
+    facts += [z3.And(p_ >= -32768, p_ <= 32767) for p_ in px]
+    cube = it.new_array(st, (1, 1, 2), "int16", cells=list(px))
+    zarr = it.new_array(st, (1, 2), zdt, cells=list(zs))
+    xx = _ZDA(cube, ("time", "y", "x"), {"nodata": nd})
+    zones = _ZDA(zarr, ("y", "x"), {"nodata": znd})
+    calls = []
+
+    def fake_do_mean(interp, st_, args, kwargs):
+        calls.append((args, kwargs, V.z_and(*st_.pc)))
+        return interp.new_array(st_, (1, 2, 2), "float32", fill=0)
+    it.overrides["do_mean"] = fake_do_mean
+    it.lib_overrides["dask.is_dask_collection"] = native(lambda it_, st_, x: False)
+    it.lib_overrides["xarray.DataArray"] = native(lambda it_, st_, data=None, **kw: ("DataArray", data, kw))
+    cls = it.get_function("hdc.algo.accessors", "ZonalStatistics")
+    cls.link_bases(it)
+    inst = Instance(cls)
+    inst.fields["_obj"] = xx
+    it.call_function(st, cls.methods["mean"], [inst, zones, [0, 1]], {})
+    w.res.encoded.update(it.encoded)
+
+    def conc(m):
+        return {"kind": "accessor", "zone_dtype": zdt, "zones": [[C.model_value(m, z) for z in zs]], "z_nodata": C.model_value(m, znd),
+                "pixels": [[[C.model_value(m, p_) for p_ in px]]], "nodata": C.model_value(m, nd), "nz": 2}
+    tag = f"zonal.mean[zones {zdt}]"
+    w.discharge(f"{tag}.kernel_called_once", facts, z3.BoolVal(len(calls) == 1), concretize=conc)
+    for args, kwargs, g in calls:
+        ok_shape = len(args) >= 5 and hasattr(args[0], "positions") and hasattr(args[1], "positions") and args[1].shape == (1, 2)
+        w.discharge(f"{tag}.arguments", facts, z3.BoolVal(bool(ok_shape)), guard=g, concretize=conc)
+        if not ok_shape:
+            continue
+        zv = it.arr_values(st, args[1])
+        pv = it.arr_values(st, args[0])
+        w.discharge(f"{tag}.zone_raster_values_intact", facts, z3.And(*[V.to_z3(a) == b for a, b in zip(zv, zs)]), guard=g, concretize=conc,
+                    sample=True)
+        w.discharge(f"{tag}.zone_nodata_still_marks_the_same_cells", facts,
+                    z3.And(*[(V.to_z3(a) == V.to_z3(args[4])) == (b == znd) for a, b in zip(zv, zs)]), guard=g, concretize=conc)
+        w.discharge(f"{tag}.pixels_intact", facts, z3.And(*[V.to_z3(a) == b for a, b in zip(pv, px)]), guard=g, concretize=conc)
+        w.discharge(f"{tag}.scalars", facts, z3.And(V.to_z3(args[2]) == 2, V.to_z3(args[3]) == nd, V.to_z3(args[4]) == znd), guard=g, concretize=conc)
+    for ob in it.obligations:
+        w.discharge(f"{tag}.{ob.kind}@{ob.where}", facts, ob.claim, guard=ob.guard, concretize=conc)
+
+
 def worker(w, cfg):
-    {"exact": w_exact, "acc": w_accumulator}[cfg["kind"]](w, cfg)
+    {"exact": w_exact, "acc": w_accumulator, "accessor": w_accessor}[cfg["kind"]](w, cfg)
 
 
 def configs(tier):
@@ -153,6 +238,8 @@ def configs(tier):
                 cf.append({"kind": "exact", "T": T, "R": R, "C": Cn, "nz": nz, "dtype": dt})
     cf.append({"kind": "acc", "dtype": None})
     cf.append({"kind": "acc", "dtype": "float64"})
+    for zdt in ("uint8", "int16", "uint16", "int32", "uint32", "int64"):
+        cf.append({"kind": "accessor", "zone_dtype": zdt})
     return cf
 
 
@@ -178,6 +265,17 @@ def validate(chk, seed):
 
 
 def replay_candidate(chk, c):
+    if c["input"].get("kind") == "accessor":
+        try:
+            r = chk.replayer.call("c16_accessor", **{k: v for k, v in c["input"].items() if k != "kind"})
+        except C.HarnessError as e:
+            if "died" not in str(e):
+                raise
+            # the process running the real accessor on the witness was killed (SIGSEGV: a zone id outside the accumulator arrays
+            # reaches the unchecked compiled kernel) - that is the violation, reproduced
+            chk.replayer.close()
+            return True, {"violates": True, "why": "the interpreter running zonal.mean on this input crashed (out-of-range zone index in compiled code)"}
+        return bool(r["violates"]), r
     r = chk.replayer.call("c16_do_mean", **c["input"])
     return bool(r["violates"]), r
 
